@@ -235,9 +235,10 @@ def run_history(ctx, walks, files, tmp, xdir, nsample, rng):
     if not twice:
         raise Machinery('history: TLC exported no walk that calls a method twice')
     rng.shuffle(other)
+    rng.shuffle(twice)
     seen, picked = set(), []
-    for w in twice:         # one per (start form, file, method)
-        key = (len(w['steps']), w['steps'][-1]['fid'], w['steps'][-1]['m'])
+    for w in twice:         # one per (file, method), with or without an earlier file
+        key = (w['steps'][-1]['fid'], w['steps'][-1]['m'])
         if key not in seen:
             seen.add(key)
             picked.append(w)
@@ -270,7 +271,7 @@ def run_history(ctx, walks, files, tmp, xdir, nsample, rng):
             if asread[fid] is not None:
                 now = live_config(pp)
                 ctx.verdict('ParserConfigUnchanged', now == asread[fid], cls='hist:%s' % trail[-1],
-                            detail='after %s the parser holds %s; the file as read holds %s' % (' '.join(trail), _cfg_diff(now, asread[fid]), flat(asread[fid])), vector=vec)
+                            detail='after %s the configuration of the parser differs from the file as read (now, as read): %s' % (' '.join(trail), _cfg_diff(now, asread[fid])), vector=vec)
         # canary: a call that consumes a key of the live configuration must be seen by the comparison
         if not canary_done and asread[st[-1]['fid']] is not None and 'Instrument' in asread[st[-1]['fid']]:
             canary_done = True
